@@ -4,6 +4,10 @@
    every descriptor created is closed when Run returns, no descriptor is closed twice, only
    created descriptors are closed, a failing start has started no goroutine, Run reports Failed
    exactly when the start failed, and a successful start has started the expected goroutines.
+   The injectable calls are epoll_create1, eventfd, epoll_ctl ADD and socket(2) of a listener
+   (SSock): a failing socket call ends createListeners (Run returns Failed before the start) or
+   the reuse-port loop that wanted the listener; in both cases the listeners created so far by
+   that step are closed again, which is the [ok = false] case of [create_socks_inv].
 
    Proof shape.  [Inv s P Ls] relates the ledger to what the engine still holds:
      P   the poller descriptors held (epoll descriptors and eventfds): pairwise distinct, created,
@@ -314,26 +318,49 @@ Qed.
 Lemma add_reads_none : forall lns s, snd (add_reads None lns s) = true.
 Proof. induction lns as [|x r IH]; intros s; cbn; auto. Qed.
 
-Lemma create_socks_inv : forall n s ids s' P Ls,
-  create_socks n s = (ids, s') -> Inv s P Ls -> Inv s' P (ids ++ Ls) /\ gos s' = gos s.
+Lemma create_socks_S : forall f m s,
+  create_socks f (S m) s =
+  let '(bad, s0) := call f SSock s in
+  if bad then ([], s0, false) else
+  let '(id, s1) := create KSock s0 in
+  let '(ids, s2, ok) := create_socks f m s1 in (id :: ids, s2, ok).
+Proof. reflexivity. Qed.
+
+(* whether or not a socket call fails: the listeners returned are held, nothing else was created *)
+Lemma create_socks_inv : forall f n s ids s' ok P Ls,
+  create_socks f n s = (ids, s', ok) -> Inv s P Ls -> Inv s' P (ids ++ Ls) /\ gos s' = gos s.
 Proof.
-  induction n as [|m IH]; intros s ids s' P Ls E H.
+  intros f. induction n as [|m IH]; intros s ids s' ok P Ls E H.
   - cbn in E. inversion E; subst; auto.
-  - change (create_socks (S m) s) with
-      (let '(id, s1) := create KSock s in
-       let '(ids, s2) := create_socks m s1 in (id :: ids, s2)) in E.
-    destruct (create KSock s) as [id s1] eqn:E1.
-    destruct (create_socks m s1) as [ids1 s2] eqn:E2.
+  - rewrite create_socks_S in E.
+    destruct (call f SSock s) as [bad s0] eqn:E0.
+    pose proof (call_gos _ _ _ _ _ E0) as G0.
+    apply call_inv with (P := P) (Ls := Ls) in E0; auto.
+    destruct bad.
+    { inversion E; subst; clear E. cbn [app]. auto. }
+    destruct (create KSock s0) as [id s1] eqn:E1.
+    destruct (create_socks f m s1) as [[ids1 s2] ok2] eqn:E2.
     inversion E; subst; clear E.
     pose proof (create_gos _ _ _ _ E1) as G1.
     apply create_L_inv with (P := P) (Ls := Ls) in E1; auto.
-    destruct (IH _ _ _ _ _ E2 E1) as [I G]. split; [|congruence].
+    destruct (IH _ _ _ _ _ _ E2 E1) as [I G]. split; [|congruence].
     apply (Inv_equiv _ _ _ _ I). intros x. cbn. rewrite !in_app_iff. cbn. tauto.
+Qed.
+
+Lemma create_socks_none : forall n s, snd (create_socks None n s) = true.
+Proof.
+  induction n as [|m IH]; intros s; [reflexivity|].
+  rewrite create_socks_S.
+  pose proof (call_none SSock s) as Hc.
+  destruct (call None SSock s) as [bad s0]. cbn in Hc. subst bad.
+  destruct (create KSock s0) as [id s1].
+  specialize (IH s1). destruct (create_socks None m s1) as [[ids s2] ok]. exact IH.
 Qed.
 
 Lemma run_event_loops_S : forall f L m first regs s,
   run_event_loops f L (S m) first regs s =
-  let '(lns, s0) := if first then (L, s) else create_socks (List.length L) s in
+  let '(lns, s0, oks) := if first then (L, s, true) else create_socks f (List.length L) s in
+  if negb oks then (close_all_once lns s0, regs, false) else
   let '(s1, op) := open_poller f s0 in
   match op with
   | None => ((if first then s1 else close_all_once lns s1), regs, false)
@@ -353,17 +380,26 @@ Proof.
   intros f L. induction todo as [|m IH]; intros first regs s s' regs' ok E H.
   - cbn in E. inversion E; subst. split; [exact H|]. split; [reflexivity | intros _; lia].
   - rewrite run_event_loops_S in E.
-    assert (H0 : exists lns s0,
-              (if first then (L, s) else create_socks (List.length L) s) = (lns, s0) /\
+    assert (H0 : exists lns s0 oks,
+              (if first then (L, s, true) else create_socks f (List.length L) s) = (lns, s0, oks) /\
               Inv s0 (pids regs) (lns ++ L ++ lids regs) /\ gos s0 = gos s /\
               (first = true -> lns = L)).
     { destruct first.
-      - exists L, s. split; [reflexivity|]. split; [|auto].
+      - exists L, s, true. split; [reflexivity|]. split; [|auto].
         apply (Inv_equiv _ _ _ _ H). intros x. rewrite !in_app_iff. tauto.
-      - destruct (create_socks (List.length L) s) as [lns s0] eqn:E0.
-        exists lns, s0. destruct (create_socks_inv _ _ _ _ _ _ E0 H) as [I G].
+      - destruct (create_socks f (List.length L) s) as [[lns s0] oks] eqn:E0.
+        exists lns, s0, oks. destruct (create_socks_inv _ _ _ _ _ _ _ _ E0 H) as [I G].
         split; [reflexivity|]. split; [exact I|]. split; [exact G | discriminate]. }
-    destruct H0 as [lns [s0 [E0 [I0 [G0 F0]]]]]. rewrite E0 in E.
+    destruct H0 as [lns [s0 [oks [E0 [I0 [G0 F0]]]]]]. rewrite E0 in E.
+    destruct oks; cbn [negb] in E; cbv iota in E.
+    2:{ (* a socket of this loop could not be created: the ones created for it are closed *)
+        assert (Ic : Inv (close_all_once lns s0) (pids regs) (lns ++ L ++ lids regs)).
+        { apply close_all_once_inv; auto. intros x Hx. apply in_app_iff; auto. }
+        inversion E; subst; clear E.
+        split; [|split; [rewrite close_all_once_gos; exact G0 | discriminate]].
+        apply (Inv_weaken _ _ _ _ Ic).
+        + intros x. rewrite !in_app_iff. tauto.
+        + intros x. rewrite close_all_once_cls, !in_app_iff. tauto. }
     destruct (open_poller f s0) as [s1 op] eqn:E1.
     destruct (open_poller_inv _ _ _ _ _ _ E1 I0) as [G1 I1].
     destruct op as [p|].
@@ -397,7 +433,10 @@ Lemma run_event_loops_none : forall L todo first regs s,
 Proof.
   intros L. induction todo as [|m IH]; intros first regs s; [reflexivity|].
   rewrite run_event_loops_S.
-  destruct (if first then (L, s) else create_socks (List.length L) s) as [lns s0].
+  assert (Hs : snd (if first then (L, s, true) else create_socks None (List.length L) s) = true).
+  { destruct first; [reflexivity | apply create_socks_none]. }
+  destruct (if first then (L, s, true) else create_socks None (List.length L) s) as [[lns s0] oks].
+  cbn in Hs. subst oks. cbn [negb]. cbv iota.
   destruct (open_poller_none s0) as [p Hp].
   destruct (open_poller None s0) as [s1 op]. cbn in Hp. subst op. cbv zeta.
   pose proof (add_reads_none lns s1) as Ha.
@@ -554,10 +593,20 @@ Qed.
 Lemma go_inv : forall n s P Ls, Inv s P Ls -> Inv (go n s) P Ls.
 Proof. intros. apply (Inv_frame s); auto. Qed.
 
-Lemma Inv_start : forall n L s0, create_socks n st0 = (L, s0) -> Inv s0 [] L /\ gos s0 = 0.
+Lemma Inv_start : forall f n L s0 okl,
+  create_socks f n st0 = (L, s0, okl) -> Inv s0 [] L /\ gos s0 = 0.
 Proof.
-  intros n L s0 E. destruct (create_socks_inv _ _ _ _ [] [] E Inv_st0) as [I G].
+  intros f n L s0 okl E. destruct (create_socks_inv _ _ _ _ _ _ [] [] E Inv_st0) as [I G].
   rewrite app_nil_r in I. auto.
+Qed.
+
+(* createListeners failed: closing the listeners created so far closes everything *)
+Lemma close_listeners_final : forall L s,
+  Inv s [] L -> Final (close_all_once L s) /\ gos (close_all_once L s) = gos s.
+Proof.
+  intros L s H.
+  assert (H0 : Inv s (pids [] ++ ipids None) (L ++ lids [])) by (cbn; rewrite app_nil_r; exact H).
+  exact (close_phase [] None L s H0).
 Qed.
 
 Lemma run_final_gos : forall c,
@@ -566,8 +615,11 @@ Lemma run_final_gos : forall c,
    gos (fst (run c)) = if c_reuseport c then c_nloops c else S (c_nloops c)).
 Proof.
   intros c. unfold run.
-  destruct (create_socks (c_nlis c) st0) as [L s0] eqn:E0.
-  destruct (Inv_start _ _ _ E0) as [I0 G0].
+  destruct (create_socks (c_fault c) (c_nlis c) st0) as [[L s0] okl] eqn:E0.
+  destruct (Inv_start _ _ _ _ _ E0) as [I0 G0].
+  destruct okl; cbn [negb]; cbv iota.
+  2:{ cbn [fst snd]. destruct (close_listeners_final _ _ I0) as [F _].
+      split; [exact F | discriminate]. }
   destruct (c_reuseport c).
   - destruct (run_event_loops (c_fault c) L (c_nloops c) true [] s0) as [[s1 regs] ok] eqn:E1.
     assert (H0 : Inv s0 (pids []) (L ++ lids [])) by (cbn; rewrite app_nil_r; exact I0).
@@ -589,8 +641,10 @@ Qed.
 Lemma after_start_gos : forall c, gos (fst (after_start c)) = 0.
 Proof.
   intros c. unfold after_start.
-  destruct (create_socks (c_nlis c) st0) as [L s0] eqn:E0.
-  destruct (Inv_start _ _ _ E0) as [I0 G0].
+  destruct (create_socks (c_fault c) (c_nlis c) st0) as [[L s0] okl] eqn:E0.
+  destruct (Inv_start _ _ _ _ _ E0) as [I0 G0].
+  destruct okl; cbn [negb]; cbv iota.
+  2:{ cbn [fst]. exact G0. }
   destruct (c_reuseport c).
   - destruct (run_event_loops (c_fault c) L (c_nloops c) true [] s0) as [[s1 regs] ok] eqn:E1.
     assert (H0 : Inv s0 (pids []) (L ++ lids [])) by (cbn; rewrite app_nil_r; exact I0).
@@ -631,7 +685,9 @@ Proof. intros c s H. pose proof (after_start_gos c) as G. rewrite H in G. exact 
 Theorem outcome_spec : forall c, snd (run c) = Failed <-> snd (after_start c) = false.
 Proof.
   intros c. unfold run, after_start.
-  destruct (create_socks (c_nlis c) st0) as [L s0].
+  destruct (create_socks (c_fault c) (c_nlis c) st0) as [[L s0] okl].
+  destruct okl; cbn [negb]; cbv iota.
+  2:{ cbn. split; reflexivity. }
   destruct (c_reuseport c).
   - destruct (run_event_loops (c_fault c) L (c_nloops c) true [] s0) as [[s1 regs] ok].
     destruct ok; cbn; split; congruence.
@@ -642,7 +698,9 @@ Qed.
 Theorem no_fault_starts : forall c, c_fault c = None -> snd (run c) = Started.
 Proof.
   intros c Hf. unfold run. rewrite Hf.
-  destruct (create_socks (c_nlis c) st0) as [L s0].
+  pose proof (create_socks_none (c_nlis c) st0) as Hl.
+  destruct (create_socks None (c_nlis c) st0) as [[L s0] okl].
+  cbn in Hl. subst okl. cbn [negb]. cbv iota.
   destruct (c_reuseport c).
   - pose proof (run_event_loops_none L (c_nloops c) true [] s0) as H.
     destruct (run_event_loops None L (c_nloops c) true [] s0) as [[s1 regs] ok].
@@ -720,6 +778,41 @@ Proof. vm_compute. reflexivity. Qed.
 (* a fault that is never reached does not fail the start *)
 Example ex_fault_not_reached :
   summary (mkCfg false 1 1 (Some (mkFault SEpoll 5))) = (Started, 1, 2, 2, 5, 2).
+Proof. vm_compute. reflexivity. Qed.
+
+(* createListeners: the 2nd socket(2) fails: Run ends before the start, the one listener created
+   is closed again; nothing else was created, no goroutine *)
+Example ex_create_listeners_sock_fails :
+  summary (mkCfg true 2 2 (Some (mkFault SSock 1))) = (Failed, 1, 0, 0, 1, 0).
+Proof. vm_compute. reflexivity. Qed.
+
+Example ex_create_listeners_sock_fails_ledger :
+  let c := mkCfg true 2 2 (Some (mkFault SSock 1)) in
+  leaked (fst (run c)) = [] /\ dup_closes (cls (fst (run c))) = 0 /\ cls (fst (run c)) = [0] /\
+  snd (after_start c) = false /\ gos (fst (after_start c)) = 0 /\ cls (fst (after_start c)) = [].
+Proof. vm_compute. repeat split; reflexivity. Qed.
+
+(* reuse-port, 3 loops, 2 listeners, the 4th socket(2) fails (loop 1's second listener): loop 0
+   is registered with its poller, loop 1 has created one socket, closed by the failing step;
+   3 sockets, 1 epoll descriptor, 1 eventfd, 5 closes, nothing leaked *)
+Example ex_reuseport_sock_fails :
+  summary (mkCfg true 3 2 (Some (mkFault SSock 3))) = (Failed, 3, 1, 1, 5, 0).
+Proof. vm_compute. reflexivity. Qed.
+
+Example ex_reuseport_sock_fails_after_start :
+  let r := after_start (mkCfg true 3 2 (Some (mkFault SSock 3))) in
+  snd r = false /\ gos (fst r) = 0 /\ cls (fst r) = [4] /\ leaked (fst r) = [3; 2; 1; 0].
+Proof. vm_compute. repeat split; reflexivity. Qed.
+
+Example ex_reuseport_sock_fails_ledger :
+  let s := fst (run (mkCfg true 3 2 (Some (mkFault SSock 3)))) in
+  leaked s = [] /\ dup_closes (cls s) = 0 /\ cls s = [2; 3; 1; 0; 4].
+Proof. vm_compute. repeat split; reflexivity. Qed.
+
+(* reactors never create sockets after createListeners: a socket fault beyond the engine's own
+   listeners is not reached *)
+Example ex_reactors_sock_fault_not_reached :
+  summary (mkCfg false 2 2 (Some (mkFault SSock 2))) = (Started, 2, 3, 3, 8, 3).
 Proof. vm_compute. reflexivity. Qed.
 
 Print Assumptions run_no_leak.
